@@ -73,7 +73,10 @@ def layouts(max_samples, max_plates, max_size, max_total):
 LOOKALIKE = ["P1", "P1 ", " P1", "p1", "P1\t", "P1  "]  # plate labels equal up to blanks / case are different plates
 
 
-def build_rows(layout, n_obs, pool="mixed", all_observed=False, mix=None, lookalike=False, order=None):
+LONG_OBS = ["PILOT_2021_03_15_RUN_A01", "PILOT_2021_03_15_RUN_A02"]  # observed plates with bar-code style labels (longer than any generated label)
+
+
+def build_rows(layout, n_obs, pool="mixed", all_observed=False, mix=None, lookalike=False, order=None, longobs=False):
     """layout: list (per sample) of unobserved plate sizes; n_obs rows go to an
     observed plate 'obs' (cycling over the samples)."""
     P = POOL_COMBO_ONLY if pool == "combo" else (POOL[6:] + POOL[:6] if pool == "mixed5" else (POOL_TRIPLE if pool == "triple" else POOL))
@@ -92,7 +95,7 @@ def build_rows(layout, n_obs, pool="mixed", all_observed=False, mix=None, lookal
     for k in range(n_obs):
         s = k % len(layout)
         tr = P[(k + 1) % len(P)]
-        rows.append((f"s{s}", "  P1" if lookalike else "obs", tr, round(0.05 + 0.1 * g, 4), True))
+        rows.append((f"s{s}", "  P1" if lookalike else (LONG_OBS[k % 2] if longobs else "obs"), tr, round(0.05 + 0.1 * g, 4), True))
         g += 1
     if mix:
         # one more unobserved plate whose wells belong to several samples, in the given order (e.g. s0, s1, s0)
@@ -227,6 +230,16 @@ def plan(tier, prop):
                     if kind == "permutation" and total > perm_rows:
                         continue
                     items.append({"op": kind, "params": params, "layout": lay, "n_obs": 1 if order == "reversed" else 0, "pool": "mixed", "order": order})
+    # observed plates with long labels (two of them sharing a 22-character prefix) next to generated / merged labels
+    for lay in lay_gen:
+        total = sum(sum(t) for t in lay)
+        if 2 <= total <= 4 and len(lay) <= 2:
+            for kind, params in (("segregate", {"max_plate_size": 2}), ("pairwise", {"subset_size": 1, "anchor_size": 0}), ("permutation", {"force": None}),
+                                 ("merge_min", {"min_size": 2}), ("fixed", {"plate_size": 1}), ("ensemble", {"min_size": 2, "n_iterations": 1, "min_n_cell_line_plates": 1})):
+                if kind == "permutation" and total + 2 > perm_rows:
+                    continue
+                items.append({"op": kind, "params": params, "layout": lay, "n_obs": 2, "pool": "mixed", "longobs": True, "bound": 1})
+            items.append({"op": "holdout_plate", "params": {"fraction": 0.5}, "layout": lay, "n_obs": 2, "pool": "mixed", "longobs": True})
     # histories: results recorded in place before the operation; a generator run again after one of its plates was revealed
     for lay in lay_gen:
         total = sum(sum(t) for t in lay)
@@ -304,7 +317,7 @@ def execute(item, chooser):
     """Run one operation on one input with one answer sequence.
     Returns (input_screen, outputs or None, exception or None)."""
     kind = item["op"]
-    rows = build_rows(item["layout"], item["n_obs"], item["pool"], all_observed=(kind == "sparse_cover"), mix=item.get("mix"), lookalike=bool(item.get("lookalike")), order=item.get("order"))
+    rows = build_rows(item["layout"], item["n_obs"], item["pool"], all_observed=(kind == "sparse_cover"), mix=item.get("mix"), lookalike=bool(item.get("lookalike")), order=item.get("order"), longobs=bool(item.get("longobs")))
     kw = {}
     if item.get("mask_dtype"):
         # the observation mask given as 0/1 integers (a pandas column, an HDF5 uint8 dataset) instead of booleans
@@ -635,7 +648,7 @@ def run_item(prop, item, col):
             continue
         case = {"item": item, "choices": ch.choices}
         if col.evaluations <= 1:
-            col.sample({"op": item["op"], "params": item["params"], "input_rows": build_rows(item["layout"], item["n_obs"], item["pool"], mix=item.get("mix"), lookalike=bool(item.get("lookalike")), order=item.get("order")),
+            col.sample({"op": item["op"], "params": item["params"], "input_rows": build_rows(item["layout"], item["n_obs"], item["pool"], mix=item.get("mix"), lookalike=bool(item.get("lookalike")), order=item.get("order"), longobs=bool(item.get("longobs"))),
                         "choices": ch.choices})
         res = oracle(item, before, out)
         outs = out if isinstance(out, tuple) else (out,)
@@ -660,7 +673,7 @@ def replay(prop, case, col):
         print(f"replay: operation refused: {short_exc(exc)}")
         return
     print("input rows:")
-    for r in build_rows(item["layout"], item["n_obs"], item["pool"], mix=item.get("mix"), lookalike=bool(item.get("lookalike")), order=item.get("order")):
+    for r in build_rows(item["layout"], item["n_obs"], item["pool"], mix=item.get("mix"), lookalike=bool(item.get("lookalike")), order=item.get("order"), longobs=bool(item.get("longobs"))):
         print("   ", r)
     for o in out if isinstance(out, tuple) else (out,):
         print("output rows:")
